@@ -15,7 +15,8 @@ LEVEL = "fault_enumeration"
 TECHNIQUE = "runtime monitoring with fault injection: enumerated request lists x holders x fault points driven through the real controller; ownership snapshots, in-work ownership sampling and callback order logs checked against an ownership model"
 RULE = ("enumeration: preemption mask (4) x request lists of length <= 3 (quick) / <= 4 (thorough) over {r1,r2,r3,unknown} incl. repeats x "
         "pre-existing holder (none | holding each non-empty subset at lower/equal/higher priority | holding r1 twice) x fault point "
-        "(none, G0/G1/S/G2 checkpoint false or raising, work raises, work falsy, validate false/raises/absent, kill or watchdog timeout from inside work) "
+        "(none, G0/G1/S/G2 checkpoint false or raising, work raises, work falsy, validate false/raises/absent, kill or watchdog timeout from inside work, "
+        "a nested coordinated operation run from inside work followed by failure, manual kill / shutdown / watchdog kill delivered from a checkpoint condition) "
         "+ seeded follow-ups (second operation reusing ids, holder complete/abort/manual kill/watchdog, shutdown); 1 case in 8 goes through IntegratedCell.execute; "
         "non-trivial = case has a fault or a contended / repeated / unknown resource; distinct = (mask, list, holder, fault)")
 ASSUMPTIONS = ["'untouched' = owner and hold_count of locks the operation never obtained; waiting lists may change",
@@ -25,7 +26,9 @@ RES = ["r1", "r2", "r3"]
 SYMS = ["r1", "r2", "r3", "unknown"]
 MASKS = [(False, False), (True, False), (False, True), (True, True)]
 FAULTS = ["none", "g0_false", "g1_false", "g1_raise", "s_false", "s_raise", "g2_false", "g2_raise", "work_raises", "work_falsy",
-          "validate_false", "validate_raises", "validate_absent", "kill_in_work", "watchdog_in_work"]
+          "validate_false", "validate_raises", "validate_absent", "kill_in_work", "watchdog_in_work",
+          "nested_work_raises", "nested_validate_false", "nested_validate_raises", "nested_ok",
+          "kill_in_g0_cp", "shutdown_in_g0_cp", "watchdog_in_g0_cp", "kill_in_s_cp", "kill_in_g2_cp"]
 
 
 def holders():
@@ -66,7 +69,8 @@ def plan(tier):
             "timeout": 600 if tier == "quick" else 2400, "exhaustive": True, "min_fraction": 1.0,
             "require": {"execute_calls": total, "work_runs_sampled": 5000, "blocked_acquisitions": 5000, "preemptions": 500,
                         "reentrant_requests": 2000, "checkpoint_faults_hit": 2000, "kills_inside_work": 1000,
-                        "followup_ops": 5000, "holder_exits_checked": 3000, "cell_entry": 1000}}
+                        "followup_ops": 5000, "holder_exits_checked": 3000, "cell_entry": 1000, "nested_operations": 1000,
+                        "kills_from_checkpoint": 2000}}
 
 
 class Boom(Exception):
@@ -111,6 +115,7 @@ def run_case(ctx, n):
         system.register_resource("r1", allow_preemption=mask[0])
         system.register_resource("r2", allow_preemption=mask[1])
         system.register_resource("r3", allow_preemption=False)
+        system.register_resource("r4", allow_preemption=False)     # only ever used by the nested operation
         locks = ctl.resources
         OP_PRIO = 5
         # ---- pre-existing holder
@@ -132,10 +137,31 @@ def run_case(ctx, n):
                 ctx.count("checkpoint_faults_hit")
                 if kind.endswith("raise"):
                     raise Boom("checkpoint exploded")
+                if kind.startswith("kill_in"):
+                    if "killed" not in sampled:
+                        sampled["killed"] = True
+                        ctx.count("kills_from_checkpoint")
+                        system.kill_operation("op", "killed from a checkpoint condition")
+                    return True
+                if kind.startswith("shutdown_in"):
+                    if "killed" not in sampled:
+                        sampled["killed"] = True
+                        ctx.count("kills_from_checkpoint")
+                        system.shutdown()
+                    return True
+                if kind.startswith("watchdog_in"):
+                    if "killed" not in sampled:
+                        sampled["killed"] = True
+                        ctx.count("kills_from_checkpoint")
+                        clock.advance(1000.0)
+                        system.run_maintenance()
+                    return True
                 return False
             return cond
         phase_of = {"g0": Phase.G0, "g1": Phase.G1, "s": Phase.S, "g2": Phase.G2}
         ph = phase_of.get(fault.split("_")[0]) if fault.endswith(("_false", "_raise")) else None
+        if fault.endswith("_cp"):
+            ph = phase_of[fault.split("_")[2]]
         if ph is not None:
             ctl.checkpoints[ph] = list(ctl.checkpoints[ph]) + [Checkpoint(phase=ph, condition=cp_fault(fault), name="injected")]
 
@@ -147,7 +173,11 @@ def run_case(ctx, n):
             sampled["own"] = {r: locks[r].owner for r in RES}
             sampled["active"] = "op" in ctl.active_operations
             ctx.count("work_runs_sampled")
-            if fault == "work_raises":
+            if fault.startswith("nested"):
+                ctx.count("nested_operations")
+                inner = system.execute_operation("inner", "agent-i", lambda: "inner-result", resources=["r4"], priority=OP_PRIO)
+                sampled["inner_success"] = inner.success
+            if fault in ("work_raises", "nested_work_raises"):
                 raise Boom("work failed")
             if fault == "kill_in_work":
                 ctx.count("kills_inside_work")
@@ -163,13 +193,15 @@ def run_case(ctx, n):
 
         def validate(res):
             log.append("validate")
-            if fault == "validate_raises":
+            if fault in ("validate_raises", "nested_validate_raises"):
                 raise Boom("validator exploded")
-            return fault != "validate_false"
+            return fault not in ("validate_false", "nested_validate_false")
 
         # ---- model: which acquisitions succeed
         before = snap()
         own = dict((r, before[r][0]) for r in RES)
+        if fault in ("shutdown_in_g0_cp", "watchdog_in_g0_cp"):
+            own = {r: (None if o == "H" else o) for r, o in own.items()}     # the holder is gone before the acquisitions start
         prio = {"H": OP_PRIO + (holder[1] if holder else 0)}
         obtained = {}          # resource -> times obtained by op
         stopped = None
@@ -214,11 +246,14 @@ def run_case(ctx, n):
                 mech = "reentrant-hold-leak" if obtained.get(r, 0) > 1 else "resource-leak:%s" % path
                 viol(mech, "%s still owned by the finished operation (hold_count %d) after exit path %s" % (r, after[r][1], path))
                 return
+        if locks["r4"].owner is not None or "inner" in ctl.active_operations:
+            viol("resource-leak:nested-operation", "nested operation left r4 owned by %r / active=%s" % (locks["r4"].owner, "inner" in ctl.active_operations))
+            return
         if "op" in ctl.active_operations:
             viol("still-active:%s" % path, "operation still listed as active after exit path %s" % path)
             return
         # 2. never-obtained resources untouched (a holder killed by the watchdog fault legitimately loses its locks)
-        holder_killed = fault == "watchdog_in_work" and "work" in log
+        holder_killed = (fault == "watchdog_in_work" and "work" in log) or fault in ("shutdown_in_g0_cp", "watchdog_in_g0_cp")
         for r in RES:
             if r not in obtained and after[r] != before[r] and not (holder_killed and before[r][0] == "H"):
                 viol("untouched-resource-changed:%s" % path, "%s was never obtained by the operation but went %s -> %s" % (r, before[r], after[r]))
@@ -244,12 +279,13 @@ def run_case(ctx, n):
             viol("validate-ran-twice", "validate_fn ran %d times" % nval)
             return
         if nval == 1:
-            if nwork != 1 or fault == "work_raises" or log.index("validate") < log.index("work"):
+            if nwork != 1 or fault in ("work_raises", "nested_work_raises") or log.index("validate") < log.index("work"):
                 viol("validate-before-work-completed", "validate ran with log %s" % log)
                 return
         # 4. success only if both succeeded
         if success:
-            ok = nwork == 1 and fault != "work_raises" and (vf is None or (nval == 1 and fault not in ("validate_false", "validate_raises")))
+            ok = nwork == 1 and fault not in ("work_raises", "nested_work_raises") and (
+                vf is None or (nval == 1 and fault not in ("validate_false", "validate_raises", "nested_validate_false", "nested_validate_raises")))
             if not ok:
                 viol("success-without-work-and-validation:%s" % fault, "success reported with log %s under fault %s" % (log, fault))
                 return
